@@ -352,6 +352,36 @@ example : (grun exC (G.init exC) schedRespErr).s.members 0 = [] ∧
     ((grun exC (G.init exC) schedRespErr).th 2).map (fun t => (t.todo.length, t.loc.clr 0)) = some (0, true) ∧
     (grun exC (G.init exC) schedRespErr).s.rems 0 ⟨11, 1⟩ = 1 := by decide
 
+/-! ## Reload: a quota rebuilt by a later load of the configuration behaves as the first one did -/
+
+/-- What a reload leaves: every set empty, no status, nothing recorded per transaction, the clock where it was, and
+    the rebuilt quotas' own collector due one (new) GC interval after the reload instant. -/
+theorem reload_fresh (cfg' : Cfg) (s : S) :
+    (∀ q, (reload cfg' s).members q = []) ∧ (∀ q r, (reload cfg' s).allowed q r = none)
+    ∧ (∀ r, (reload cfg' s).rm r = []) ∧ (reload cfg' s).now = s.now
+    ∧ (reload cfg' s).nextGC = s.now + cfg'.gc :=
+  ⟨fun _ => rfl, fun _ _ => rfl, fun _ => rfl, rfl, rfl⟩
+
+/-- For every history with any number of reloads (each loading any well-formed configuration, the same or a changed
+    one), what is observed under every load satisfies the whole property `Spec.holds` on that load's configuration —
+    the predicate the judge evaluates load by load. -/
+theorem c02_holds_reloads (cfg : Cfg) (hwf : cfg.wf = true) (events : List Event)
+    (reloads : List (Cfg × List Event)) (hwfs : ∀ p ∈ reloads, p.1.wf = true) :
+    ∀ p ∈ runReloads cfg (S.init cfg) events reloads, holds p.1 p.2 = true := by
+  intro p hp
+  obtain ⟨c, now, es, hc, rfl⟩ := runReloads_fresh cfg cfg.t0 events reloads hwf hwfs p hp
+  exact c02_holds (c.startedAt now) ((wf_startedAt c now).trans hc) es
+
+/-- After a reload, too: past the first GC instant (of the rebuilt quota's own collector) at or after its expiry a
+    member is gone — an abandoned transaction admitted by a rebuilt quota does not hold its slot for good. -/
+theorem released_by_gc_after_reload (cfg' : Cfg) (hwf : cfg'.wf = true) (s : S) (events : List Event) (d k : Nat)
+    (hk : dueCount (final (cfg'.startedAt s.now) (reload cfg' s) events).nextGC cfg'.gc
+            ((final (cfg'.startedAt s.now) (reload cfg' s) events).now + d) = k + 1)
+    (q : Nat) (hc : cfg'.isConc q = true) :
+    ∀ m ∈ (advance (cfg'.startedAt s.now) (final (cfg'.startedAt s.now) (reload cfg' s) events) d).members q,
+      (final (cfg'.startedAt s.now) (reload cfg' s) events).nextGC + k * cfg'.gc < m.expiry :=
+  released_by_gc_after_expiry (cfg'.startedAt s.now) ((wf_startedAt cfg' s.now).trans hwf) events d k hk q hc
+
 /-! ## Defaults (tie to the source; `Generated/Constants.lean` is rewritten from /repo by `harness/go/cmd/extract`
     on every run, so this `decide` re-checks what the code says now) -/
 
